@@ -14,6 +14,7 @@ import Dirk.Lemmas.ImportProofs
 import Dirk.Lemmas.PropInv
 import Dirk.Lemmas.ImportCmd
 import Dirk.Props.KernelsEq
+import Dirk.Props.FactsStore
 
 namespace Dirk
 
